@@ -37,6 +37,98 @@ class TableSpace:
         self.group2 = None
         self.const = []
         self.ints = []
+        self.special = {}  # column name -> value class (see special_values); never used by the C01 grammar
+
+
+# ---------------------------------------------------------------------------
+# value classes that make "equal" and "close" different things
+
+_SPECIAL_NAMES = ['code_L', 'near_f', 'tiny0', 'magn', 'seg_big', 'ZZ_id']
+MAXMAG = 1e140  # the engine refuses operands beyond sqrt(DBL_MAX) ~ 1.3e154 in some operators
+TWO53 = float(2 ** 53)
+
+
+def special_values(r, kind):
+    """the distinct values a column of that class draws from"""
+    if kind in ('bigcode', 'bigcode_group'):
+        base = r.choice([1e5, 1.2e6, 52000.0, 1e9, 1e12, 1e15, TWO53 - 4, TWO53, 1e17])
+        offs = r.sample(range(0, 9), r.randint(2, 6))
+        return [float(base + o) for o in offs]  # beyond 2**53 neighbours merge in float64: judged as stored
+    if kind == 'nearfloat':
+        return list(r.choice([[52000.0, 52000.4, 52000.5], [1.0, 1.0 + 1e-9, 1.0 + 2e-9, 1.0 - 1e-9], [0.1 + 0.2, 0.3, 0.30000001],
+                              [-7.25, -7.25 - 1e-12, -7.25 + 1e-7], [1e8, 1e8 + 1e-3, 1e8 + 0.5]]))
+    if kind == 'nearzero':
+        return [0.0, -0.0, 1e-9, -1e-9, 3e-9, 1e-12, 1e-300][: r.randint(3, 7)]
+    if kind == 'magnitude':
+        return r.sample([1e120, -1e120, 1e-300, -2e-200, 1e100, 1.5, 3e-16, 6.02e23, -1e-9, 0.0], r.randint(3, 6))
+    raise ValueError(kind)
+
+
+def _close_to(r, v):
+    """a number that is NOT v but within isclose-like tolerances of it"""
+    import math
+
+    c = r.random()
+    if v == 0:
+        return r.choice([1e-12, -1e-12, 1e-9, 1e-300])
+    if c < 0.25:
+        return v * (1 + 1e-9)
+    if c < 0.45:
+        return v + 1e-9
+    if c < 0.65:
+        return math.nextafter(v, math.inf)
+    if c < 0.8:
+        return math.nextafter(v, -math.inf)
+    return v * (1 - 3e-6)
+
+
+def literal_for(r, vals, which=None):
+    """(number, 'present' | 'close' | 'far') relative to the values a column holds"""
+    which = which or r.choices(['present', 'close', 'far'], [50, 35, 15])[0]
+    v = r.choice(vals)
+    if which == 'present':
+        return v, which
+    if which == 'close':
+        x = _close_to(r, v)
+        return (x, 'close') if x not in vals else (v, 'present')
+    x = r.choice([v * 2 + 1, 99.0, -v - 3, 0.5])
+    return (x, 'far') if x not in vals else (v, 'present')
+
+
+def special_formula(r, sp, shadow, kind):
+    """formulas made of table values, literals and single correctly rounded IEEE operations only: their value is
+    determined bit for bit, so they are judged with exact equality (descriptor field 'exact')"""
+    cols = [c for c in sp.special if c in shadow.cols]
+    c = r.choice(cols)
+    c2 = r.choice(cols)
+    vals = shadow.col(c)
+    lit = lambda: ['num', literal_for(r, vals)[0]]
+    cmpop = lambda: r.choice(['eq', 'eq', 'ne', 'lt', 'le', 'gt', 'ge'])
+    if kind == 'cond':
+        k = r.random()
+        if k < 0.6:
+            ast = [cmpop(), ['var', c], lit()]
+        elif k < 0.75 and c2 != c:
+            ast = [cmpop(), ['var', c], ['var', c2]]
+        elif k < 0.9:
+            ast = ['mul', [cmpop(), ['var', c], lit()], ['var', c2]]  # zero, or the (tiny / huge / negative) value itself
+        else:
+            ast = ['sub', ['var', c], lit()]  # non-zero unless exactly equal
+    else:
+        k = r.random()
+        if k < 0.2:
+            ast = ['var', c]
+        elif k < 0.45:
+            ast = ['mul', ['var', c], ['num', r.choice([2.0, 0.5, -1.0, 1e-10, 1e10, 3.0, 0.1])]]
+        elif k < 0.6:
+            ast = ['add', ['var', c], lit()]
+        elif k < 0.8:
+            ast = ['sub', ['var', c], ['num', r.choice(vals)]]
+        elif k < 0.9:
+            ast = ['sub', ['var', c], ['var', c2]]
+        else:
+            ast = ['neg', ['var', c]]
+    return {'ast': ast, 'shared': [], 'exact': True}
 
 
 def make_table(seed, index, n=None):
@@ -80,6 +172,25 @@ def make_table(seed, index, n=None):
         per = {i: float(r.choice([18, 25, 40, 40, 63])) for i in ids}
         data[c] = [per[int(v)] for v in g]
         sp.const.append(c)
+    # columns whose values are large neighbouring codes, nearly equal floats, (almost) zero, extreme magnitudes
+    int_codes = []
+    if r.random() < 0.45:
+        snames = _SPECIAL_NAMES[:]
+        r.shuffle(snames)
+        for _ in range(r.randint(1, 2)):
+            kind = r.choice(['bigcode', 'bigcode', 'bigcode_group', 'nearfloat', 'nearfloat', 'nearzero', 'magnitude'])
+            c = snames.pop()
+            vs = special_values(r, kind)
+            if kind == 'bigcode_group':
+                per = {i: r.choice(vs) for i in ids}
+                if len(vs) >= len(ids) and r.random() < 0.7:  # one code per individual: can serve as panel column
+                    per = dict(zip(ids, r.sample(vs, len(ids))))
+                data[c] = [per[int(v)] for v in g]
+            else:
+                data[c] = [r.choice(vs) for _ in range(n)]
+            sp.special[c] = kind
+            if kind.startswith('bigcode') and max(vs) < TWO53 - 100 and r.random() < 0.5:
+                int_codes.append(c)
     # duplicated full rows
     if n > 2 and r.random() < 0.3:
         for _ in range(r.randint(1, 2)):
@@ -92,6 +203,7 @@ def make_table(seed, index, n=None):
     data = {c: data[c] for c in cols}
     if r.random() < 0.5:
         sp.ints = [c for c in sp.key + sp.av + [sp.group] + sp.const if r.random() < 0.7]
+    sp.ints = sp.ints + int_codes
     kind = r.choices(['range', 'offset', 'shuffled', 'gaps', 'dup'], [50, 10, 16, 15, 9])[0]
     if kind == 'range' or n == 1 and kind == 'dup':
         labels = list(range(n))
@@ -164,7 +276,7 @@ def formula(r, sp, kind):
 
 WEIGHTS = {
     'remove': 16, 'add_column': 10, 'define_variable': 6, 'values': 3, 'scale_column': 9, 'panel': 9, 'split': 11,
-    'sample': 6, 'sample_map': 7, 'extract_rows': 10, 'flat': 7, 'count': 5, 'dump': 2,
+    'sample': 6, 'sample_map': 7, 'extract_rows': 10, 'flat': 7, 'count': 7, 'dump': 2, 'segmentation': 5,
 }
 
 
@@ -192,8 +304,43 @@ def next_op(r, sp, shadow, used_names, first=False, nframes=0, aliasing=False):
     op = r.choices(list(ops), list(ops.values()))[0]
     if op == 'adopt':
         return {'op': 'adopt', 'which': r.randrange(nframes)}
+    special = [c for c in sp.special if c in shadow.cols]
+    use_special = bool(special) and r.random() < 0.45
     if op == 'remove':
+        if use_special:
+            return {'op': 'remove', **special_formula(r, sp, shadow, 'cond')}
         return {'op': 'remove', **formula(r, sp, 'cond')}
+    if op == 'segmentation':
+        c = r.choice(special * 2 + list(sp.key) + list(sp.const) + [sp.group])
+        if c is None or c not in shadow.cols:
+            return None
+        vals = shadow.col(c)
+        distinct = sorted(set(vals))
+        if len(distinct) > 12:
+            return None
+        variant = r.choices(['exact', 'missing', 'extra_close', 'extra_far'], [65, 10, 18, 7])[0]
+        keys = list(distinct)
+        if variant == 'missing':
+            if len(keys) < 2:
+                variant = 'exact'
+            else:
+                keys.remove(r.choice(keys))
+        elif variant in ('extra_close', 'extra_far'):
+            x, what = literal_for(r, vals, 'close' if variant == 'extra_close' else 'far')
+            if what == 'present':
+                variant = 'exact'
+            else:
+                keys.append(x)
+        r.shuffle(keys)
+        return {'op': 'segmentation', 'column': c, 'keys': keys, 'variant': variant, 'int_keys': r.random() < 0.5}
+    if use_special and op in ('add_column', 'define_variable', 'values'):
+        d = {'op': op, **special_formula(r, sp, shadow, 'real')}
+        if op != 'values':
+            free = [x for x in _NEW_NAMES if x not in used_names and x not in shadow.cols]
+            if not free:
+                return None
+            d['name'] = r.choice(free)
+        return d
     if op in ('add_column', 'define_variable'):
         free = [x for x in _NEW_NAMES if x not in used_names and x not in shadow.cols]
         if not free:
@@ -204,9 +351,17 @@ def next_op(r, sp, shadow, used_names, first=False, nframes=0, aliasing=False):
     if op == 'values':
         return {'op': 'values', **formula(r, sp, 'real')}
     if op == 'scale_column':
-        cands = sp.real + sp.pos + sp.key + sp.const
+        cands = sp.real + sp.pos + sp.key + sp.const + special * 2
         c = r.choice(cands)
-        if c in sp.const:  # not used by formulas: any factor, also a float factor on an int64 column
+        if c in sp.special:
+            big = max(abs(v) for v in shadow.col(c))
+            if c in sp.ints:
+                s = r.choice([2, 3, 10, -1, 0.5, 1e-3])
+            else:
+                s = r.choice([2, 0.5, 3, 1e-10, 1e10, -1.0, 0.1, 7, 1e-3])
+            if big * abs(s) > MAXMAG:
+                s = 0.5
+        elif c in sp.const:  # not used by formulas: any factor, also a float factor on an int64 column
             s = r.choice([0.5, 2, -1.0, 0.1, 3, 1 / 3])
         elif c in sp.key:
             s = r.choice([2, 3, 10])
@@ -216,7 +371,7 @@ def next_op(r, sp, shadow, used_names, first=False, nframes=0, aliasing=False):
             s = r.choice([0.5, 2.0, -1.0, 10, 0.01, 3, 1 / 3, 1e-3, 100, -0.25, 2, -1])
         return {'op': 'scale_column', 'column': c, 'scale': s}
     if op == 'panel':
-        cands = [sp.group] * 6 + list(sp.key) + list(sp.const)
+        cands = [sp.group] * 6 + list(sp.key) + list(sp.const) + [c for c in special if sp.special[c] == 'bigcode_group'] * 4 + special
         return {'op': 'panel', 'column': r.choice(cands)}
     if op == 'split':
         c = r.random()
@@ -230,7 +385,7 @@ def next_op(r, sp, shadow, used_names, first=False, nframes=0, aliasing=False):
         c = r.random()
         if shadow.panel is None:
             if c < 0.5:
-                groups = r.choice([sp.group] * 3 + list(sp.key) + list(sp.const))
+                groups = r.choice([sp.group] * 3 + list(sp.key) + list(sp.const) + special * 2)
         elif c < 0.25:
             groups = shadow.panel
         elif c < 0.32:
@@ -284,18 +439,22 @@ def next_op(r, sp, shadow, used_names, first=False, nframes=0, aliasing=False):
             ident = r.sample(truly, r.randint(0, len(truly)))
         return {'op': 'flat', 'identical': ident}
     if op == 'count':
-        c = r.choice(shadow.cols)
+        c = r.choice(shadow.cols + special * 3)
         vals = shadow.col(c)
-        v = r.choice(vals) if r.random() < 0.8 else r.choice([99.0, -7.5, 0.0, 1.0])
-        return {'op': 'count', 'column': c, 'value': v}
+        v, what = literal_for(r, vals)  # a value the column holds / one very close to such a value / one far from all
+        return {'op': 'count', 'column': c, 'value': v, 'asked': what}
     if op == 'dump':
         return {'op': 'dump'}
     return None
 
 
-def after_add(sp, name, values):
+def after_add(sp, name, values, exact=False):
     """type a freshly added column so that later formulas can use it safely"""
     if not values:
+        return
+    if exact:  # derived from a special column: stays outside the C01 grammar
+        if all(abs(v) <= MAXMAG for v in values):
+            sp.special[name] = 'derived'
         return
     if all(0.2 <= v <= 30 for v in values):
         sp.pos.append(name)
